@@ -10,7 +10,7 @@ _spec.loader.exec_module(_c03)
 
 UNITS = []
 for _u in _c03.UNITS:
-    if _u["name"] in ("List.layout", "List.insert", "List.remove", "List.removeFront", "List.removeBack", "List.swap"):
+    if _u["name"].startswith("PoolList.") or _u["name"] in ("List.layout", "List.insert", "List.remove", "List.removeFront", "List.removeBack", "List.swap"):
         _d = dict(_u)
         _d["prop"] = "C05"
         UNITS.append(_d)
@@ -24,8 +24,8 @@ for _u in _c02.UNITS:
         UNITS.append(_d)
 TRUSTED = _c03.TRUSTED + _c02.TRUSTED
 ASSUMPTIONS = [
-    "List, HashMap, HashSet and PoolMap are covered (insert / remove / swap step contracts; HashMap/HashSet insert relative to bucket chains of <= 2 nodes). "
-    "Map, MultiMap and PoolList have no step contracts: for them C05 is not decided; swap of the hash containers is covered for two distinct tables",
+    "List, PoolList, HashMap, HashSet and PoolMap are covered (insert / remove / swap step contracts; HashMap/HashSet insert relative to bucket chains of <= 2 nodes). "
+    "PoolList: append() / remove x4 / swap step contracts (element constructed in place behind the node header, node computed from the element address). Map and MultiMap have no step contracts: for them C05 is not decided; swap of the hash containers is covered for two distinct tables",
     "history statement = induction over operations: no operation's frame contains the payload or the address of an element other than the one inserted / removed",
     "iterators are plain node pointers (List::Iterator::item), so iterator validity is node address stability",
 ]
